@@ -190,7 +190,15 @@ pub fn item_rewrites(it: &syn::Item, src: &str, _mode: &str, edits: &mut Vec<Edi
             for ii in &im.items {
                 if let syn::ImplItem::Fn(f) = ii {
                     attr_edits(&f.attrs, src, edits, rewrites);
-                    drop_print_stmts(&f.block, src, edits, rewrites);
+                    if _mode == "trusted" {
+                        let (s, _) = br(f.span());
+                        let (bs, be) = br(f.block.span());
+                        edits.push(Edit { start: s, end: s, text: "#[verifier::external_body]\n".into(), kind: "R7 stub".into(), prio: -10 });
+                        edits.push(Edit { start: bs, end: be, text: "{ unimplemented!() }".into(), kind: "R7 stub".into(), prio: 6 });
+                        rewrites.push("R7 body replaced by unimplemented!() under external_body".into());
+                    } else {
+                        drop_print_stmts(&f.block, src, edits, rewrites);
+                    }
                 }
             }
         }
